@@ -26,11 +26,17 @@ structure AStream where
   updates_only stream with its first message (the Pull RPC returns before the handler subscribes, so
   until then an Update may be missed) -/
   established : Bool
+  /-- the last message this stream delivered (seed included) -/
+  lastSeen : Option VId := none
 
 structure Acc where
   cur : Option VId
   streams : List AStream
   facts : List ((MId × VId) × VId)
+  /-- background mode: an accepted Update started server-side writes (a tween); until the harness reports
+  quiescence, stream messages and intermediate values are not constrained, `cur` is where the register
+  has to END: the background job's target, or the response of a later Update that interrupted it -/
+  bg : Bool := false
 
 def Acc.init : Acc := { cur := none, streams := [], facts := [] }
 
@@ -43,6 +49,8 @@ inductive Obs
   | get (m : MId) (w : VId)
   | updok (v : VId)
   | upderr
+  | updokbg (v target : VId)   -- Update accepted, background writes started; `target`: where they end
+  | quiesce                    -- the harness waited past the background job's deadline and drained
   | open_ (m : MId) (uo : Bool)
   | recv (i : Nat) (w : VId) (nameOk : Bool)
   | idle (i : Nat)
@@ -104,7 +112,20 @@ def accept (a : Acc) : Obs → Acc × Verdict
       | some p =>
         if p = w then (a, .ok)
         else (a, .reject (if m = 0 then "Get/differs-from-register" else "Get/masked-get-not-projection"))
+  | .updokbg _ target =>
+    ({ a with cur := some target, bg := true, streams := a.streams.map fun s => { s with queue := [] } }, .ok)
+  | .quiesce =>
+    match a.cur with
+    | none => ({ a with bg := false }, .ok)
+    | some c =>
+      -- every live, established stream must have ENDED on the register's value
+      match a.streams.mapM (fun s => if s.live && s.established then (a.proj s.mask c).map (fun p => s.lastSeen == some p) else some true) with
+      | none => (a, .missingFact)
+      | some oks =>
+        if oks.all id then ({ a with bg := false }, .ok)
+        else ({ a with bg := false }, .reject "Pull/stream-does-not-end-on-register")
   | .updok v =>
+    if a.bg then ({ a with cur := some v }, .ok) else
     match a.streams.mapM (pushEntry a a.cur v) with
     | none => (a, .missingFact)
     | some ss => ({ a with cur := some v, streams := ss }, .ok)
@@ -120,8 +141,13 @@ def accept (a : Acc) : Obs → Acc × Verdict
     match a.streams[i]? with
     | none => (a, .reject "Pull/unexpected-stream-message")
     | some s =>
+      if a.bg then
+        -- background mode: any value may pass by; only the name is checked
+        ({ a with streams := setAt a.streams i fun s => { s with established := true, lastSeen := some w } },
+          if nameOk then .ok else .reject "Pull/wrong-name")
+      else
       let r := qRecv s.queue w nameOk
-      ({ a with streams := setAt a.streams i fun s => { s with queue := r.1, established := s.established || r.2 == .ok } }, r.2)
+      ({ a with streams := setAt a.streams i fun s => { s with queue := r.1, established := s.established || r.2 == .ok, lastSeen := some w } }, r.2)
   | .idle i =>
     match a.streams[i]? with
     | none => (a, .ok)
